@@ -29,8 +29,24 @@ pub fn build(quick: bool) -> Check {
     let alpha = alphabet();
     let prefix = vec![Action::Prepare { id: 1, n: 2, ok: true }, Action::Prepare { id: 2, n: 2, ok: true }];
     let mut families: Vec<Box<dyn Family>> = Vec::new();
-    for d in 1..=(if quick { 4 } else { 6 }) {
+    for d in 1..=(if quick { 4 } else { 5 }) {
         families.push(Box::new(Tree { label: "bind-reuse".into(), prefix: prefix.clone(), alpha: alpha.clone(), depth: d }));
+    }
+    if !quick {
+        // one level deeper over a core of the alphabet: statement 1 in full, statement 2 with
+        // three actions that can interfere (bind, reuse, re-prepare)
+        let core: Vec<Action> = alpha
+            .iter()
+            .copied()
+            .filter(|a| match a {
+                Action::Exec { id: 1, null_first, .. } => !*null_first,
+                Action::Exec { id: 2, bind, null_first: false, shim_ignores: 0 } => matches!(bind, Bind::B | Bind::Reuse),
+                Action::Prepare { .. } => true,
+                Action::Long { id: 1, .. } => true,
+                _ => false,
+            })
+            .collect();
+        families.push(Box::new(Tree { label: "bind-reuse-core".into(), prefix: prefix.clone(), alpha: core, depth: 6 }));
     }
     families.push(Box::new(Bfs {
         label: "bind-reuse".into(),
@@ -44,9 +60,9 @@ pub fn build(quick: bool) -> Check {
     Check {
         id: "C16",
         level: "model_checking",
-        rule: format!("two prepared statements of 2 parameters; histories over {} actions: EXECUTE(id 1|2, reuse | bind LONG | TINY UNSIGNED | VAR_STRING | BIGINT UNSIGNED | LONG UNSIGNED (same type code, other signedness; values have the top bit set), first parameter NULL or not), executions whose parameters the shim does not look at or of which it reads only the first, long data pending for the second parameter, re-PREPARE. Values are position- and step-dependent so that decoding with another statement's or an older type table, or from a shifted offset, gives a different value. Full tree to depth {} plus BFS over model states with two witnesses. Plus 4..300 statements each with its own table, all reused afterwards, and 4 statements under 160..3000 mixed executions. Oracle: types and values seen by the shim equal the model's (last table bound for that statement).", alpha.len(), if quick {4} else {6}),
+        rule: format!("two prepared statements of 2 parameters; histories over {} actions: EXECUTE(id 1|2, reuse | bind LONG | TINY UNSIGNED | VAR_STRING | BIGINT UNSIGNED | LONG UNSIGNED (same type code, other signedness; values have the top bit set), first parameter NULL or not), executions whose parameters the shim does not look at or of which it reads only the first, long data pending for the second parameter, re-PREPARE. Values are position- and step-dependent so that decoding with another statement's or an older type table, or from a shifted offset, gives a different value. Full tree to depth {} (thorough: depth 6 over a 15-action core) plus BFS over model states with two witnesses. Plus 4..300 statements each with its own table, all reused afterwards, and 4 statements under 160..3000 mixed executions. Oracle: types and values seen by the shim equal the model's (last table bound for that statement).", alpha.len(), if quick {4} else {5}),
         assumptions: vec!["reusing types when none were ever bound ends the history (protocol violation by the client)".into()],
-        bounds: json!({"tree_depth": if quick {4} else {6}, "alphabet": alpha.len()}),
+        bounds: json!({"tree_depth": if quick {4} else {5}, "core_tree_depth": if quick {0} else {6}, "alphabet": alpha.len()}),
         exhaustive: true,
         caps_hit: vec![],
         families,
